@@ -31,6 +31,7 @@ def check(ctx, rep, tier):
     rep.describe("absorb", "a rule that absorbs a filler word returns its value operand with "
                  "every field unchanged")
     _bleed(ctx, rep, eng)
+    _marked_clock_kept(ctx, rep, eng)
     _mirror(ctx, rep, eng)
     _absorb(ctx, rep, eng)
     report_undecided(rep, eng, RELEVANT)
@@ -158,6 +159,31 @@ def _bleed(ctx, rep, eng):
                 "without a boundary: it can take the first letters of the next word",
                 witness=None if not bad else {"pattern": rule.pats[0].value[:160]})
     rep.count("clock_patterns", n, 3)
+
+
+def _marked_clock_kept(ctx, rep, eng):
+    """A clock time written with an explicit marker (uhr/h) is never rejected because of
+    the reference time (the year heuristic applies to bare hhmm only)."""
+    from .c05 import _explicit_clock, _conds_mention_ts, _military_rules
+    rep.describe("marked-clock-kept", "a clock pattern match that contains an explicit clock marker "
+                 "is accepted or rejected independently of the reference time")
+    for rule in ctx.rb.rules:
+        if rule.name not in _military_rules(ctx):
+            continue
+        RELEVANT.add(rule)
+        bad = None
+        n = 0
+        for run in runs_of(eng, rule):
+            for p in run.paths:
+                if p.kind != "ret":
+                    continue
+                if _explicit_clock(ctx, rule, p):
+                    n += 1
+                    if _conds_mention_ts(p.conds):
+                        bad = bad or "a match with an explicit clock marker is accepted or rejected " \
+                            "depending on the reference time: the clock part can be dropped"
+        rep.add("marked-clock-kept", rule_construct(rule, "explicit clock marker"), rule.where, bad is None,
+                bad or "{} paths".format(n))
 
 
 # ---------------------------------------------------------------------------
